@@ -27,6 +27,9 @@ def main(argv=None):
     ap.add_argument("--case", type=int, default=None, help="debug: run a single case index of --only")
     a = ap.parse_args(argv)
     seed = int(os.environ.get("VERIF_SEED", "0") or 0)
+    if (a.only or a.case is not None) and not a.replay and not os.environ.get("VERIF_OUT_DIR"):
+        # a partial (debug) run must not overwrite the evidence file of the full check
+        os.environ["VERIF_OUT_DIR"] = os.path.join("/tmp", f"verif_partial_{os.getuid()}")
     from . import runner
 
     mod = importlib.import_module(f"vt.harness.{HARNESS[a.pid]}")
